@@ -156,5 +156,29 @@ def run(tier, t0):
 
 
 def replay(path):
-    print("re-run `bin/check C10`; the failing case is in the replay file")
-    return 2
+    """Re-run the case of a replay file through the real code and the TLC judge; exit 1 if it fails again."""
+    rec = json.load(open(path))
+    s = rec["sample"]
+    case = s["case"]
+    wd = C.workdir("c10_replay")
+    cp, op = os.path.join(wd, "case.ndjson"), os.path.join(wd, "obs.ndjson")
+    C.write_ndjson(cp, [{"n": 5}, {"pred": case["pred"], "cols": case["cols"]}])
+    on_clause = s.get("engine") == "dt-joinfilter"
+    C.qv(["dt-joinfilter" if on_clause else "dt-filter"], stdin_path=cp, stdout_path=op, timeout=600)
+    obs = [o for o in C.read_ndjson(op) if o["emb"] == case["embedding"] and (not on_clause or o["kind"] == case["kind"])]
+    if on_clause:
+        recs = [{"case": 0, "emb": o["emb"], "kind": o["kind"], "join": o["join"] if o["join"] == "ok" else "panic", "l_nullable": bool(o["l_nullable"]), "r_nullable": bool(o["r_nullable"]),
+                 "rows": [{"pred": x["pred"], "l_in": bool(x["l_in"]), "r_in": bool(x["r_in"])} for x in o["rows"]]} for o in obs]
+        spec = "Trace_JoinFilter"
+    else:
+        recs = [{"case": 0, "emb": o["emb"], "filter": o["filter"] if o["filter"] == "ok" else "panic",
+                 "rows": [{"pred": x["pred"], "in": bool(x["in"]), "in_input": bool(x["in_input"])} for x in o["rows"]]} for o in obs]
+        spec = "Trace_Filter"
+    tp = os.path.join(wd, "trace.ndjson")
+    C.write_ndjson(tp, recs)
+    _, fails, _ = C.validate_trace(spec, spec + ".cfg", tp, "c10_replay")
+    print(json.dumps(obs)[:2000])
+    if fails:
+        print(f"VIOLATION property={PID} replay={path}")
+        return 1
+    return 0
